@@ -77,19 +77,27 @@ def lifecycle_case(case):
             acc = {'name': 'acc1', 'contacts': contacts, 'key_type': key_type}
             if eab:
                 acc['external_account'] = {'identifier': 'kid-%d' % case['i'], 'key': b64u(eab_key), 'signature_algorithm': eab}
-            return S.std_config(d, ca, [{'name': 'c0', 'identifiers': S.ids('l%d.example.org' % case['i'])}], accounts=[acc])
+            certs = [{'name': 'c0', 'identifiers': S.ids('l%d.example.org' % case['i']), 'endpoint': 'ca1'}]
+            if case.get('two_endpoints'):
+                # the same account on a second CA: every roll-over / update is owed to each of them separately
+                certs.append({'name': 'c1', 'identifiers': S.ids('m%d.example.org' % case['i']), 'endpoint': 'ca2'})
+            return S.std_config(d, ca, certs, accounts=[acc], ca_names=['ca1', 'ca2'] if case.get('two_endpoints') else ['ca1'])
         return cfg
 
+    nc = 2 if case.get('two_endpoints') else 1
+
     def rm_cert(d, ca):
-        try:
-            os.remove(d + '/certs/c0_ecdsa-p256.crt.pem')
-        except OSError:
-            pass
+        for c in ('c0', 'c1'):
+            try:
+                os.remove(d + '/certs/%s_ecdsa-p256.crt.pem' % c)
+            except OSError:
+                pass
 
     def forget(d, ca):
         ca.forget('ca1')
+        ca.forget('ca2')
         rm_cert(d, ca)
-    n_ok = lambda n: (lambda hooks, log: len(S.successes(hooks)) >= n or len([h for h in hooks if C.hook_event(h) == 'post-operation']) >= n + 3)
+    n_ok = lambda n: (lambda hooks, log: len(S.successes(hooks)) >= n * nc or len([h for h in hooks if C.hook_event(h) == 'post-operation']) >= n * nc + 3)
     phases = [
         {'cfg': mk_cfg(case['k0'], ['a@example.org']), 'stop': n_ok(2), 'timeout': 60},
         {'cfg': mk_cfg(case['k0'], ['b@example.org', 'c@example.org']), 'before': rm_cert, 'stop': n_ok(1), 'timeout': 60},
@@ -103,8 +111,8 @@ def lifecycle_case(case):
         res['phases_done'] = len([p for p in run.phases if not p['timed_out']])
         succ = len(S.successes(run.hooks))
         res['successes'] = succ
-        if succ < 5:
-            res['infra'] = 'lifecycle %s->%s: only %d of 5 issuances succeeded (phases: %s)' % (case['k0'], case['k1'], succ, [(p['rc'], p['timed_out']) for p in run.phases])
+        if succ < 5 * nc:
+            res['infra'] = 'lifecycle %s->%s: only %d of the expected issuances succeeded (phases: %s)' % (case['k0'], case['k1'], succ, [(p['rc'], p['timed_out']) for p in run.phases])
         if res['problems']:
             res['replay_dir'] = run.dir
         return res
@@ -216,7 +224,7 @@ def run(tier):
             k1 = kts[(kts.index(k0) + 2) % 7]
         if 'rsa4096' in (k0, k1) and i % 4:
             k0, k1 = (k0 if k0 != 'rsa4096' else 'ecdsa_p384'), (k1 if k1 != 'rsa4096' else 'ed448')
-        life.append({'i': i, 'k0': k0, 'k1': k1, 'eab': EAB_ALGS[i % 3] if i % 2 else None, 'eab_len': r.choice([16, 32, 64, 100]),
+        life.append({'i': i, 'k0': k0, 'k1': k1, 'two_endpoints': bool(i % 2 == 0), 'eab': EAB_ALGS[i % 3] if i % 2 else None, 'eab_len': r.choice([16, 32, 64, 100]),
                      'nonce_on_get': bool(i % 3)})
     storms = [{'i': i, 'k0': kts[(i + 2) % 7] if (kts[(i + 2) % 7] != 'rsa4096' or i % 3 == 0) else 'ecdsa_p521', 'n_ids': r.choice([1, 2, 3]),
                'lens': [r.randint(1, 9) for _ in range(12)], 'nonce_on_get': bool(i % 2),
